@@ -685,7 +685,6 @@ End SemArith.
 (* ================================================================== *)
 (* 6. The concrete instance: non-vacuity and refuted witnesses          *)
 (* ================================================================== *)
-Definition lib0 : ExecLib := mk_lib (ctx_fixed 0 0) (fun _ _ _ => false) members_in_order.
 
 (* hypotheses of the theorems above are satisfiable *)
 Example C13_examples :
@@ -696,9 +695,14 @@ Example C13_examples :
   zero_divisor lib0 (JNum (NJs "0.0")) /\
   execMathOp lib0 (JNum (NFlt (S754_zero false))) (JNum (NJs "0.0")) BDiv = MErr (EVerbose "division by zero").
 Proof.
-  repeat split; try (vm_compute; reflexivity); try (vm_compute; discriminate).
-  - intros s z E. injection E as <-. vm_compute. intros H. injection H as <-. reflexivity.
-  - right. split; [reflexivity|]. eexists. split; vm_compute; reflexivity.
+  split; [vm_compute; reflexivity|]. split; [vm_compute; reflexivity|].
+  split; [vm_compute; reflexivity|].
+  split; [unfold math_ok; vm_compute; discriminate|].
+  split.
+  { intros s z E. injection E as <-. intros H. vm_compute in H. injection H as <-. vm_compute. reflexivity. }
+  split.
+  { right. split; [vm_compute; reflexivity|]. exists (S754_zero false). split; vm_compute; reflexivity. }
+  vm_compute; reflexivity.
 Qed.
 
 (* Known finding: + - * / and unary minus wrap at the int64 boundary instead of
